@@ -82,6 +82,7 @@ type aggregate struct {
 	vtimeMs             int64
 	faults, probes      map[string]int
 	other               map[string]int
+	otherFirst          map[string]string
 	fps                 map[uint64]bool
 	samples             []any
 	tlsReal, tlsStub    int
@@ -123,6 +124,14 @@ func (a *aggregate) add(o jobOutcome) {
 	}
 	for k, v := range r.Other {
 		a.other[k] += v
+	}
+	for k, v := range r.OtherFirst {
+		if a.otherFirst == nil {
+			a.otherFirst = map[string]string{}
+		}
+		if _, ok := a.otherFirst[k]; !ok {
+			a.otherFirst[k] = v
+		}
 	}
 	for _, f := range r.OrderFPs {
 		a.fps[f] = true
@@ -363,6 +372,14 @@ func executePlan(prop, tier string, seed uint64, plan *Plan, nproc int, t0 time.
 	}
 	if len(agg.other) > 0 {
 		fmt.Printf("  (monitors of other properties fired during these runs and are not part of this verdict: %v)\n", agg.other)
+		keys := make([]string, 0, len(agg.otherFirst))
+		for k := range agg.otherFirst {
+			keys = append(keys, k)
+		}
+		sort.Strings(keys)
+		for _, k := range keys {
+			fmt.Printf("    first %s: %s\n", k, agg.otherFirst[k])
+		}
 	}
 	fmt.Printf("  %d simulated runs, %d events, %.0f s of virtual time, %d distinct non-trivial interleaving/fault fingerprints, %.1fs wall\n",
 		agg.runs, agg.steps, float64(agg.vtimeMs)/1000, len(agg.fps), time.Since(t0).Seconds())
